@@ -1,9 +1,10 @@
 import GmqttVerif.Model.Fed.PeerSession
+import GmqttVerif.Model.AList
 /-
   Model of `localSubStore` (federation.go) and of the three hooks that feed it (hooks.go:
   `OnSubscribedWrapper`, `OnUnsubscribedWrapper`, `OnSessionTerminatedWrapper`).
 
-  Go maps become association lists in insertion order:
+  Go maps become association lists (`Model/AList.lean`: `get` / `set` / `del`):
     `index  : [clientID] ↦ list of full topic names`   (`map[string]map[string]struct{}`)
     `topics : [topicName] ↦ reference count`            (`map[string]uint64`, never holds 0)
   Results that come out of a Go map iteration (`unsubscribeAll`) are compared after sorting.
@@ -19,39 +20,35 @@ namespace LS
 
 def empty : LS := { index := [], topics := [] }
 
-def clientTopics (l : LS) (c : String) : Option (List String) := (l.index.find? (·.1 == c)).map (·.2)
+/-- `l.index[c]` (nil map when absent) -/
+def clientTopics (l : LS) (c : String) : List String := (AL.get c l.index).getD []
 
-def count (l : LS) (t : String) : Nat := ((l.topics.find? (·.1 == t)).map (·.2)).getD 0
-
-def setIndex (ix : List (String × List String)) (c : String) (ts : List String) : List (String × List String) :=
-  if ix.any (·.1 == c) then ix.map (fun p => if p.1 == c then (c, ts) else p) else ix ++ [(c, ts)]
-
-def setCount (tp : List (String × Nat)) (t : String) (n : Nat) : List (String × Nat) :=
-  if tp.any (·.1 == t) then tp.map (fun p => if p.1 == t then (t, n) else p) else tp ++ [(t, n)]
+/-- `l.topics[t]` (0 when absent) -/
+def count (l : LS) (t : String) : Nat := (AL.get t l.topics).getD 0
 
 /-- `subscribeLocked` -/
 def subscribe (l : LS) (c t : String) : LS × Bool :=
-  let cur := (l.clientTopics c).getD []
+  let cur := l.clientTopics c
   if cur.contains t then
     -- `index[c]` exists already (it contains t): nothing changes
     (l, false)
   else
     let n := l.count t + 1
-    ({ index := setIndex l.index c (cur ++ [t]), topics := setCount l.topics t n }, n == 1)
+    ({ index := AL.set c (cur ++ [t]) l.index, topics := AL.set t n l.topics }, n == 1)
 
 /-- `decTopicCounterLocked` -/
 def dec (tp : List (String × Nat)) (t : String) : List (String × Nat) :=
-  match tp.find? (·.1 == t) with
-  | some (_, n) => if n - 1 == 0 then tp.filter (·.1 != t) else setCount tp t (n - 1)
+  match AL.get t tp with
+  | some n => if n - 1 == 0 then AL.del t tp else AL.set t (n - 1) tp
   | none => tp
 
 /-- `unsubscribe` -/
 def unsubscribe (l : LS) (c t : String) : LS × Bool :=
-  match l.clientTopics c with
+  match AL.get c l.index with
   | some cur =>
     if cur.contains t then
       let cur' := cur.filter (· != t)
-      let ix := if cur'.isEmpty then l.index.filter (·.1 != c) else setIndex l.index c cur'
+      let ix := if cur'.isEmpty then AL.del c l.index else AL.set c cur' l.index
       let l' : LS := { index := ix, topics := dec l.topics t }
       (l', l'.count t == 0)
     else (l, false)
@@ -63,13 +60,12 @@ def decAll : List (String × Nat) → List String → List (String × Nat) × Li
   | tp, t :: ts =>
     let tp1 := dec tp t
     let r := decAll tp1 ts
-    if ((tp1.find? (·.1 == t)).map (·.2)).getD 0 == 0 then (r.1, t :: r.2) else r
+    if (AL.get t tp1).getD 0 == 0 then (r.1, t :: r.2) else r
 
 /-- `unsubscribeAll` -/
 def unsubscribeAll (l : LS) (c : String) : LS × List String :=
-  let cur := (l.clientTopics c).getD []
-  let r := decAll l.topics cur
-  ({ index := l.index.filter (·.1 != c), topics := r.1 }, r.2)
+  let r := decAll l.topics (l.clientTopics c)
+  ({ index := AL.del c l.index, topics := r.1 }, r.2)
 
 /-- `init`: replay the broker's subscription store -/
 def init (subs : List (String × String)) : LS :=
